@@ -213,6 +213,9 @@ def check_state_invariant(exp):
             return "thread %d is waiting but neither running nor paused (unreachable by wake-ups)" % t
         if t in P and fl[0] != "1":
             return "paused thread %d is not marked waiting" % t
+        if fl[2] == "0" and (fl[0] == "1" or t in P):
+            # round 4, dead_threads_do_not_wait evaluated on the real state
+            return "ended thread is %s: thread %d" % ("in the paused list" if t in P else "marked waiting", t)
     return None
 
 
@@ -305,15 +308,38 @@ def run_random(ctx, d, emb, exe, tdir, replay_base, nprog, nsched):
     done = 0
     while done < nprog and acc["hangs"] < 6:
         k = min(100, nprog - done)           # bounded memory: 100 programs (x schedules) per round
-        _random_chunk(ctx, d, emb, exe, tdir, replay_base, [R.gen_program(rng) for _ in range(k)], nsched, acc)
+        ps = [R.gen_program(rng) for _ in range(k)]
+        ps = [R.shift_clock(rng, p) if i % 8 == 3 else p for i, p in enumerate(ps)]     # round 4: 1 in 8 straddles a full second
+        _random_chunk(ctx, d, emb, exe, tdir, replay_base, ps, nsched, acc)
         done += k
+    # round 4: timed waits with EQUAL wake times and wake times 1 us apart (boundaries of the strict comparison in
+    # sexp_insert_timed's scan and in the scheduler's timeout splice; never reached by the random programs because every clock
+    # reading moves the virtual clock): first run -> wake times from the trace -> timeouts adjusted -> second run, same schedule
+    neq = 12 if nprog <= 300 else 120
+    eqs = [R.eq_program(rng) for _ in range(neq)]
+    escs = [rng.choice(["-", "-", "list:200,200,200", "seed:%d:60" % rng.randrange(1, 10 ** 6)]) for _ in eqs]
+    ereqs = [(sc, "1000", os.path.join(tdir, "e%d.txt" % i), p["expr"]) for i, (p, sc) in enumerate(zip(eqs, escs))]
+    parallel_batches(d, emb, ereqs, jobs=4, limit=4)
+    adj, adjs = [], []
+    for p, sc, r in zip(eqs, escs, ereqs):
+        try:
+            items, _ = parse_trace(squeeze_trace(open(r[2]).read()))
+            q = R.eq_adjust(rng, p, items)
+        except Exception:
+            q = None
+        if q:
+            adj.append(q)
+            adjs.append([sc])
+    if eqs:
+        _random_chunk(ctx, d, emb, exe, tdir, replay_base, eqs + adj, 0, acc, scheds=[[sc] for sc in escs] + adjs)
+    ctx.cov["equal_wake_time_programs"] = dict(generated=len(eqs), adjusted=len(adj))
     if acc["diverge"] and not [c for c in acc["found"] if acc["found"][c] is not None]:
         # model and code disagree but no clause of the property failed: targeted search for a failing input —
         # the diverging program under 40 more schedules, all oracles on
         _random_chunk(ctx, d, emb, exe, tdir, replay_base, [acc["diverge"][1]], 40, acc)
     feats, found, diverge, outcome_diff = acc["feats"], acc["found"], acc["diverge"], acc["outcome_diff"]
     ctx.cov["random_programs"] = dict(programs=done, runs=acc["runs"], traces=acc["n_traces"], trace_lines_vs_model=acc["n_lines"],
-                                      outcomes_predicted=acc["n_pred"], cut_at_terminate_of_timed_waiter=acc["n_outside"],
+                                      outcomes_predicted=acc["n_pred"], traces_with_terminate_of_timed_waiter=acc["n_outside"],
                                       cut_at_untraced_scheduler_call=acc["n_gap"], deadlock_free=acc["n_df"],
                                       hangs_of_programs_that_terminate_threads=acc["nondf_hangs"])
     ctx.cov["random_situations_reached"] = dict(sorted(feats.items()))
@@ -415,11 +441,16 @@ def _random_chunk(ctx, d, emb, exe, tdir, replay_base, progs, nsched, acc, sched
         n_traces += 1
         # ---- the property's clauses on the real scheduler's states
         cut = len(items)
-        for k, a in enumerate(ans):
-            if a is not None and a.startswith("E0") and items[k][0].startswith("term"):
-                cut = k          # thread-terminate! of a timed waiter: outside the proved fragment (notes (b))
-                n_outside += 1
-                break
+        for k in range(1, len(items)):
+            # round 4: thread-terminate! of a paused thread with a pending timeout is an enabled operation of the model
+            # (no cut any more); counted to show that the generator reaches it
+            if items[k][0].startswith("term"):
+                v = int(items[k][0].split()[1])
+                pe = items[k - 1][1]
+                tv = pe["T"].get(v)
+                if v in pe["P"] and tv and tv[2] not in ("0.000000", "0.0"):
+                    n_outside += 1
+                    break
         for k in range(1, cut):
             pe = items[k - 1][1]
             if (not items[k][0].startswith("sched") and not pe["F"] and set(pe["P"]) <= {pe["C"]}
@@ -767,7 +798,7 @@ def run(ctx):
                        "mixed with untimed waiters, stale wait fields, sleepers among waiters; deadlock-free by construction unless they "
                        "terminate threads) x 3-4 slice schedules on the virtual clock, every run traced; a case = (program, schedule); "
                        "checked: the property's clauses on every state of the real scheduler (lost / spurious wake-up, thread lost, "
-                       "timeouts, lock exclusion), the schedule-independent part of the logged outcomes, every traced state against the "
+                       "timeouts incl. wake time = clock reading + timeout and no wake-up before it, lock exclusion), the schedule-independent part of the logged outcomes, every traced state against the "
                        "extracted model, and the logged outcomes against the outcomes predicted from the model through the wrappers")
     ctx.coq_obligations("Properties_C11")
     d = ctx.build("default")
@@ -901,9 +932,10 @@ def run(ctx):
 
     ctx.assume("each SRFI-18 primitive is one VM instruction (FCALL), so pre-emption inside a primitive does not exist; H4 injects slice lengths only at vm.c's refuel point")
     ctx.assume("wrappers of lib/srfi/18/interface.scm call yield! right after a primitive returned #f (enabled: primitives run only in a live non-waiting thread); checked on every replayed trace line (E1)")
-    ctx.assume("not modelled: signals, fd polling / blocking I/O (sexp_blocker), child contexts of thread-terminate!, overflow of the microsecond arithmetic; thread-terminate! of a paused thread that has a pending timeout is outside the proved fragment")
-    ctx.assume("random programs: wake times in microseconds (virtual clock, +1 us per reading), so time-ordered insertion is exercised with distinct wake times only; "
-               "equal wake times and the > 1000000 carry of the microsecond field are not reached")
+    ctx.assume("not modelled: signals, fd polling / blocking I/O (sexp_blocker), child contexts of thread-terminate!, overflow of the microsecond arithmetic")
+    ctx.assume("random programs: wake times in microseconds (virtual clock, +1 us per reading); round 4: 1 program in 8 first sleeps until just before a full second "
+               "(the > 1000000 carry of the microsecond field is reached; a sum of exactly 1000000 only by chance), and the equal-wake-time family reaches equal wake "
+               "times and wake times 1 us apart (counts in random_situations_reached: carry:*, P:equal-wake-times, P:wake-times-1us-apart)")
     ctx.trust("harness/c11_rand.py: trace oracle (ghost 'what a thread waits for' = the primitive that blocked it), Python mirror of the interface.scm wrappers used for "
               "the outcome prediction, trace squeeze (interior of runs of identical scheduler lines dropped)")
     ctx.trust("hook H4 (fixes/hook-C11-sched.patch): slice injection in vm.c, trace and virtual clock in lib/srfi/18/threads.c")
